@@ -5,6 +5,7 @@ spec/Tokenizer.tla (scanner model, Level A invariants), spec/Trace_Tokenizer.tla
 import json
 import os
 import random
+import warnings
 import re
 
 from .. import fixtures
@@ -244,6 +245,40 @@ def random_strings(ctx, n, base):
     return out
 
 
+def rendered_refs_job(job):
+    """reference texts the library itself produces (Cell.formula) for generated documents: table / sheet qualified A1 references and
+    row / column references printed with header labels - plain ones, and labels that need quoting (operators, apostrophes, percent)"""
+    (idx, seed) = job
+    import tempfile
+    warnings.simplefilter("ignore")
+    from . import c09
+    c09.LABEL.update({"w": "a-b", "v": "it's", "u": "50%", "t": "R&D (net)", "s": "Q1+Q2"})
+    rng = random.Random(seed)
+    texts = []
+    scratch = tempfile.mkdtemp(prefix="nv-c18-")
+    try:
+        ns = [rng.sample(["A", "B", "C"], rng.randint(1, 3)) for _ in range(rng.randint(1, 3))]
+        tabs = [(s + 1, t + 1) for s in range(len(ns)) for t in range(len(ns[s]))]
+        pool = ["x", "y", "z", "", "w", "v", "u", "t", "s"]
+        labs = [[[rng.choice(pool) for _ in range(c09.NL)] for _ in sh] for sh in ns]
+        refs = []
+        for _ in range(30):
+            i = rng.randint(1, c09.NL)
+            j = rng.randint(i, c09.NL)
+            refs.append((rng.choice(tabs), rng.choice(tabs), i, j, rng.random() < 0.5, i == j and rng.random() < 0.5))
+        for e in c09.label_job((idx, ns, labs, "cols" if idx % 2 else "rows", refs, scratch, False)):
+            if e.get("text"):
+                texts.append(e["text"])
+        pairs = [(h, t) for h in tabs for t in tabs]
+        for e in c09.case_job((idx, ns, rng.sample(pairs, min(len(pairs), 6)), seed, scratch, None)):
+            if e.get("text"):
+                texts.append(e["text"])
+    finally:
+        import shutil
+        shutil.rmtree(scratch, ignore_errors=True)
+    return texts
+
+
 def run(ctx):
     ctx.rule = ("every string over the class alphabet up to the length bound is enumerated by TLC and replayed into "
                 "the real Tokenizer (distinct = distinct class strings); plus distinct reader-emitted formulas and "
@@ -284,6 +319,20 @@ def run(ctx):
     for f in formulas[:3]:
         ctx.sample({"formula": f})
     judge(ctx, ev, tx, "fixture-formula")
+    # 3b. reference texts rendered by the library for generated documents (qualified names, header labels incl. ones that need quoting)
+    ctx.stage('rendered-references')
+    rres = fixtures.pmap(rendered_refs_job, [(i, ctx.seed * 41 + i) for i in range(40 if ctx.quick else 600)], ctx.workers)
+    rendered = sorted({t for lst in rres for t in lst})
+    ctx.extra["rendered_reference_texts_distinct"] = len(rendered)
+    ev, tx = [], []
+    for f in rendered:
+        o, it = run_real(f)
+        ev.append(event(f, o, it, must=True))
+        tx.append(f)
+        ctx.count(1, ("g", f))
+    if rendered:
+        ctx.sample({"rendered_reference": next((f for f in rendered if "'" in f), rendered[0])})
+    judge(ctx, ev, tx, "rendered-reference")
     # 4. random / mutated strings
     ctx.stage('random')
     n = 3000 if ctx.quick else 60000
